@@ -26,7 +26,7 @@ import common
 SRC_ROOT = 'exactly_lib'
 EXTERNAL_BASES = {'ABC', 'Generic', 'object', 'Enum', 'IntEnum', 'tuple'}
 ALLOWED_DUNDERS = {'__init__', '__new__', '__str__', '__repr__', '__eq__', '__hash__'}  # == on objects is always refused (PyVal.py_eqb)
-BUILTINS = {'len', 'min', 'max', 'sorted', 'filter', 'reversed', 'list', 'tuple', 'abs', 'map'}
+BUILTINS = {'len', 'min', 'max', 'sorted', 'filter', 'reversed', 'list', 'tuple', 'abs', 'map', 'set', 'frozenset'}
 LAZY = {'filter', 'reversed', 'map'}  # iterators: only where they are consumed at once
 
 
@@ -187,7 +187,7 @@ class Translator:
             r = self.static(mod, b, {})
             if r and r[0] == 'class':
                 out.append((r[1], r[2]))
-            elif not (isinstance(b, ast.Name) and b.id in EXTERNAL_BASES):
+            elif not (isinstance(b, ast.Name) and b.id in EXTERNAL_BASES) and not self.is_enum(mod, cls):
                 raise Unsupported('class %s.%s: base class outside the translated world: %s' % (mod.short, cls.name, ast.dump(b)))
         if cls.keywords:
             raise Unsupported('class %s: metaclass/keywords' % cls.name)
@@ -206,7 +206,9 @@ class Translator:
         return [k._src for k in mk(mod, cls).__mro__ if k is not object]
 
     def is_enum(self, mod, cls):
-        return any(isinstance(b, ast.Name) and b.id in ('Enum', 'IntEnum') and self.resolve(mod, b.id) == ('external', 'enum', b.id)
+        return any((isinstance(b, ast.Name) and b.id in ('Enum', 'IntEnum') and self.resolve(mod, b.id) == ('external', 'enum', b.id))
+                   or (isinstance(b, ast.Attribute) and b.attr in ('Enum', 'IntEnum') and isinstance(b.value, ast.Name)
+                       and self.resolve(mod, b.value.id) == ('external', 'module', 'enum'))
                    for b in cls.bases)
 
     def member(self, mod, cls, name):
@@ -351,7 +353,9 @@ class Translator:
     # ---------------------------------------------------------------- functions, constants
     def check_args(self, fn):
         a = fn.args
-        if a.vararg or a.kwarg or a.kwonlyargs or a.defaults or a.posonlyargs or a.kw_defaults:
+        # defaults are tolerated in a definition: every translated call must pass ALL arguments (arity checks), so a
+        # default value is never used by translated code
+        if a.vararg or a.kwarg or a.kwonlyargs or a.posonlyargs or a.kw_defaults:
             raise Unsupported('%s: only plain positional parameters' % fn.name)
 
     def function(self, mod, fn, cls=None):
@@ -772,10 +776,13 @@ class Fn:
                 neg = isinstance(op, ast.IsNot)
                 if isinstance(r, ast.Constant) and r.value is None:
                     return '(%s %s)' % ('py_is_not_none' if neg else 'py_is_none', X(l, cap=False))
+                if isinstance(r, ast.Constant) and isinstance(r.value, bool):
+                    t = '(py_is_bool %s %s)' % ('true' if r.value else 'false', X(l, cap=False))
+                    return '(py_not %s)' % t if neg else t
                 rs = self.tr.static(self.mod, r.value, self.scope()) if isinstance(r, ast.Attribute) else None
                 if rs and rs[0] == 'class' and self.tr.is_enum(rs[1], rs[2]):
                     return '(%s %s %s)' % ('py_is_not' if neg else 'py_is', X(l, cap=False), X(r))
-                self.bad(e, '`is` with something else than None or an enum member')
+                self.bad(e, '`is` with something else than None, True, False or an enum member')
             f = {ast.Lt: 'py_lt', ast.LtE: 'py_le', ast.Gt: 'py_gt', ast.GtE: 'py_ge', ast.Eq: 'py_eq', ast.NotEq: 'py_ne',
                  ast.In: 'py_in', ast.NotIn: 'py_not_in'}.get(type(op))
             if f is None:
@@ -835,9 +842,9 @@ class Fn:
             b = f.id
             if b in LAZY and not lazy:
                 self.bad(e, '%s(...) (an iterator) where it is not consumed at once' % b)
-            if b in ('len', 'sorted', 'reversed', 'list', 'tuple', 'abs') and n == 1:
+            if b in ('len', 'sorted', 'reversed', 'list', 'tuple', 'abs', 'set', 'frozenset') and n == 1:
                 return '(%s %s)' % ({'len': 'py_len', 'sorted': 'py_sorted', 'reversed': 'py_reversed', 'list': 'py_list_of',
-                                     'tuple': 'py_tuple_of', 'abs': 'py_abs'}[b], X(e.args[0], cap=False, lazy=b in ('sorted', 'list', 'tuple')))
+                                     'tuple': 'py_tuple_of', 'abs': 'py_abs', 'set': 'py_set_of', 'frozenset': 'py_set_of'}[b], X(e.args[0], cap=False, lazy=b in ('sorted', 'list', 'tuple')))
             if b in ('min', 'max') and n == 1:
                 return '(py_%s1 %s)' % (b, X(e.args[0], cap=False, lazy=True))
             if b in ('min', 'max') and n == 2:
@@ -896,6 +903,9 @@ class Fn:
 # ------------------------------------------------------------------------------------------------------------
 _LN = 'exactly_lib.impls.types.string_transformer.impl.filter.line_nums.'
 _IV = 'exactly_lib.util.interval.'
+_IP = 'exactly_lib.impls.instructions.multi_phase.utils.'
+_TR = 'exactly_lib.test_case.result.'
+_PS = 'exactly_lib.type_val_deps.types.program.sdv.'
 TARGETS = {
     'LineNums': dict(prop='C13', world=[_LN + 'range_expr', _LN + 'range_merge', _LN + 'transformers'], opaque=[_LN + 'sources'], roots=[
         (_LN + 'range_merge', q) for q in ('_is_valid_segment', '_can_be_one', '_merge_segments', '_merge_head_to',
@@ -919,10 +929,48 @@ TARGETS = {
         ('exactly_lib.common.exit_value', '.exit_identifier')] + [
         ('exactly_lib.processing.exit_values', q) for q in ('NO_EXECUTION_EXIT_CODE', 'from_access_error', '_for_full_result',
                                                           '_FOR_FULL_RESULT', 'from_full_result', 'EXECUTION__INTERNAL_ERROR')]),
-    'Reporters': dict(prop='C16', world=[], roots=[
+    'Reporters': dict(prop='C16', world=['exactly_lib.common.exit_value'], roots=[
+        ('exactly_lib.test_suite.exit_values', 'ALL_PASS'), ('exactly_lib.test_suite.exit_values', 'INVALID_SUITE'),
+        ('exactly_lib.test_suite.exit_values', 'FAILED_TESTS'), ('exactly_lib.common.exit_value', '.exit_code'),
+        ('exactly_lib.common.exit_value', '.exit_identifier'),
         ('exactly_lib.execution.full_execution.result', 'FullExeResultStatus'),
         ('exactly_lib.test_suite.reporters.simple_progress_reporter', 'SUCCESS_STATUSES'),
         ('exactly_lib.test_suite.reporters.junit', 'FAIL_STATUSES'), ('exactly_lib.test_suite.reporters.junit', 'ERROR_STATUSES')]),
+    'ProgVerdict': dict(prop='C10', world=[_IP + 'instruction_from_parts_for_executing_program', _IP + 'instruction_part_utils',
+                                          _TR + 'sh', _TR + 'pfh'],
+                        opaque=['exactly_lib.impls.types.program.top_lvl_error_msg_rendering'], roots=[
+        (_IP + 'instruction_from_parts_for_executing_program', q) for q in ('ExecutionResultAndStderr', 'result_to_sh', 'result_to_pfh',
+                                                                            'ResultTranslator.translate_for_non_assertion',
+                                                                            'ResultTranslator.translate_for_assertion')] + [
+        (_IP + 'instruction_part_utils', 'MainStepResultTranslatorForUnconditionalSuccess.translate_for_non_assertion'),
+        (_IP + 'instruction_part_utils', 'MainStepResultTranslatorForUnconditionalSuccess.translate_for_assertion'),
+        (_TR + 'sh', '.is_success'), (_TR + 'sh', '.is_hard_error'), (_TR + 'pfh', '.status'), (_TR + 'pfh', '.is_error'),
+        (_TR + 'pfh', 'PassOrFailOrHardErrorEnum')]),
+    'Accumulate': dict(prop='C10', world=[_PS + 'accumulated_components', _PS + 'arguments'],
+                       opaque=['exactly_lib.type_val_deps.types.list_.list_sdvs'], roots=[
+        (_PS + 'accumulated_components', q) for q in ('AccumulatedComponents', 'AccumulatedComponents.empty', 'AccumulatedComponents.of_arguments',
+                                                      'AccumulatedComponents.of_stdin', 'AccumulatedComponents.of_transformations',
+                                                      'AccumulatedComponents.of_transformation', 'AccumulatedComponents.new_accumulated')]),
+    'Relativity': dict(prop='C12', world=['exactly_lib.tcfs.path_relativity', 'exactly_lib.type_val_deps.types.path.rel_opts_configuration'], roots=[
+        ('exactly_lib.tcfs.path_relativity', q) for q in ('RelOptionType', 'SpecificPathRelativity', 'SPECIFIC_ABSOLUTE_RELATIVITY',
+                                                          'specific_relative_relativity', 'PathRelativityVariants',
+                                                          'PathRelativityVariants.of_frozen_set')] + [
+        ('exactly_lib.tcfs.relativity_validation', 'is_satisfied_by'),
+        ('exactly_lib.type_val_deps.types.path.rel_opts_configuration', 'RELATIVITY_VARIANTS_FOR_FILE_CREATION'),
+        ('exactly_lib.type_val_deps.types.path.rel_opts_configuration', 'REL_OPTIONS_FOR_FILE_CREATION'),
+        ('exactly_lib.type_val_deps.types.path.rel_opts_configuration', '.accepted_relativity_variants'),
+        ('exactly_lib.type_val_deps.types.path.rel_opts_configuration', '.default_option')]),
+    'ExecSteps': dict(prop='C01', world=[_TR + 'svh', _TR + 'sh', _TR + 'pfh', 'exactly_lib.execution.impl.single_instruction_executor'], roots=[
+        ('exactly_lib.execution.impl.phase_step_executors', q) for q in ('_from_success_or_validation_error_or_hard_error',
+                                                                        '_from_success_or_hard_error', '_from_pass_or_fail_or_hard_error')] + [
+        (_TR + 'svh', q) for q in ('new_svh_success', 'new_svh_validation_error', 'new_svh_hard_error')] + [
+        (_TR + 'sh', q) for q in ('new_sh_success', 'new_sh_hard_error')] + [
+        (_TR + 'pfh', q) for q in ('new_pfh_pass', 'new_pfh_fail', 'new_pfh_hard_error')] + [
+        ('exactly_lib.execution.impl.single_instruction_executor', 'PartialControlledFailureEnum'),
+        ('exactly_lib.execution.impl.single_instruction_executor', '.error_message')]),
+    'SymbolSyntax': dict(prop='C09', world=[], roots=[('exactly_lib.symbol.symbol_syntax', 'SYMBOL_REFERENCE_BEGIN'),
+                                                      ('exactly_lib.symbol.symbol_syntax', 'SYMBOL_REFERENCE_END')]),
+    'Timeout': dict(prop='C19', world=[], roots=[('exactly_lib.definitions.os_proc_env', 'TIMEOUT__DEFAULT')]),
 }
 
 
